@@ -618,6 +618,28 @@ class Value:
         return self
 
 
+
+KIND_ORDER = {
+    "string": 0, "pattern": 1, "int": 2, "decimal": 2, "date": 3,
+    "set": 4, "map": 4, "object": 4, "func": 4, "input": 4, "output": 4,
+    "boolean": 5, "null": 6, "list": 7,
+}
+
+
+def lessAcrossKinds(a, b):
+    # Values of different kinds are ordered by kind first, then by their
+    # text. Comparing texts alone contradicts the order within a kind
+    # (numeric, chronological, element by element): 3 < 10 and
+    # 10 < date('20200101') and date('20200101') < 3 all held, so that a
+    # set of such values had no sorted order. The kinds come in the order
+    # in which their texts begin: quote, slash, digit, <, F/T, N, [
+    kinda = KIND_ORDER.get(a.type(), 8)
+    kindb = KIND_ORDER.get(b.type(), 8)
+    if kinda != kindb:
+        return kinda < kindb
+    return str(a) < str(b)
+
+
 @functools.total_ordering
 class ValueBoolean(Value):
     def __init__(self, value):
@@ -643,7 +665,7 @@ class ValueBoolean(Value):
 
     def __lt__(self, other):
         if not isinstance(other, ValueBoolean):
-            return str(self) < str(other)
+            return lessAcrossKinds(self, other)
         return self.value < other.value
 
     def __repr__(self):
@@ -690,7 +712,7 @@ class ValueControlBreak(Value):
         return self is other
 
     def __lt__(self, other):
-        return str(self) < str(other)
+        return lessAcrossKinds(self, other)
 
     def __repr__(self):
         return "break"
@@ -717,7 +739,7 @@ class ValueControlContinue(Value):
         return self is other
 
     def __lt__(self, other):
-        return str(self) < str(other)
+        return lessAcrossKinds(self, other)
 
     def __repr__(self):
         return "continue"
@@ -745,7 +767,7 @@ class ValueControlReturn(Value):
         return self is other
 
     def __lt__(self, other):
-        return str(self) < str(other)
+        return lessAcrossKinds(self, other)
 
     def __repr__(self):
         return f"return {self.value}"
@@ -775,7 +797,7 @@ class ValueDate(Value):
 
     def __lt__(self, other):
         if not isinstance(other, ValueDate):
-            return str(self) < str(other)
+            return lessAcrossKinds(self, other)
         return self.value < other.value
 
     def __repr__(self):
@@ -818,7 +840,7 @@ class ValueDecimal(Value):
 
     def __lt__(self, other):
         if not other.isNumerical():
-            return str(self) < str(other)
+            return lessAcrossKinds(self, other)
         return self.value < other.value
 
     def __repr__(self):
@@ -870,7 +892,7 @@ class ValueFunc(Value):
         return self is other
 
     def __lt__(self, other):
-        return str(self) < str(other)
+        return lessAcrossKinds(self, other)
 
     def __repr__(self):
         return f"<#{self.name}>"
@@ -901,7 +923,7 @@ class ValueInput(Value):
         return self is other
 
     def __lt__(self, other):
-        return str(self) < str(other)
+        return lessAcrossKinds(self, other)
 
     def __repr__(self):
         return "<!input-stream>"
@@ -954,7 +976,7 @@ class ValueInt(Value):
 
     def __lt__(self, other):
         if not other.isNumerical():
-            return str(self) < str(other)
+            return lessAcrossKinds(self, other)
         return self.value < other.value
 
     def __repr__(self):
@@ -1000,7 +1022,7 @@ class ValueList(Value):
 
     def __lt__(self, other):
         if not isinstance(other, ValueList):
-            return str(self) < str(other)
+            return lessAcrossKinds(self, other)
         return self.value < other.value
 
     def __repr__(self):
@@ -1093,8 +1115,10 @@ class ValueMap(Value):
         return self.value == other.value
 
     def __lt__(self, other):
+        if not isinstance(other, ValueMap):
+            return lessAcrossKinds(self, other)
         mine, theirs = str(self), str(other)
-        if mine != theirs or not isinstance(other, ValueMap):
+        if mine != theirs:
             return mine < theirs
         # same text, e.g. objects inside that differ in hidden members only
         return sorted(self.value.items()) < sorted(other.value.items())
@@ -1183,7 +1207,7 @@ class ValueNode(Value):
         return str(self.value) == str(other.value)
 
     def __lt__(self, other):
-        return str(self) < str(other)
+        return lessAcrossKinds(self, other)
 
     def __repr__(self):
         return str(self.value)
@@ -1213,7 +1237,7 @@ class ValueNull(Value):
         return other is NULL
 
     def __lt__(self, other):
-        return str(self) < str(other)
+        return lessAcrossKinds(self, other)
 
     def __repr__(self):
         return "NULL"
@@ -1252,8 +1276,10 @@ class ValueObject(Value):
         return self.value == other.value
 
     def __lt__(self, other):
+        if not isinstance(other, ValueObject):
+            return lessAcrossKinds(self, other)
         mine, theirs = str(self), str(other)
-        if mine != theirs or not isinstance(other, ValueObject):
+        if mine != theirs:
             return mine < theirs
         # objects that differ only in what their text does not show (hidden
         # members such as _proto_) still need a definite order, or a set of
@@ -1367,7 +1393,7 @@ class ValueOutput(Value):
         return self is other
 
     def __lt__(self, other):
-        return str(self) < str(other)
+        return lessAcrossKinds(self, other)
 
     def __repr__(self):
         return "<!output-stream>"
@@ -1416,7 +1442,7 @@ class ValuePattern(Value):
 
     def __lt__(self, other):
         if not isinstance(other, ValuePattern):
-            return str(self) < str(other)
+            return lessAcrossKinds(self, other)
         return self.value < other.value
 
     def __repr__(self):
@@ -1452,8 +1478,10 @@ class ValueSet(Value):
         return self.value == other.value
 
     def __lt__(self, other):
+        if not isinstance(other, ValueSet):
+            return lessAcrossKinds(self, other)
         mine, theirs = str(self), str(other)
-        if mine != theirs or not isinstance(other, ValueSet):
+        if mine != theirs:
             return mine < theirs
         # same text, e.g. objects inside that differ in hidden members only
         return self.getSortedItems() < other.getSortedItems()
@@ -1520,7 +1548,7 @@ class ValueString(Value):
 
     def __lt__(self, other):
         if not isinstance(other, ValueString):
-            return str(self) < str(other)
+            return lessAcrossKinds(self, other)
         return self.value < other.value
 
     def __repr__(self):
